@@ -316,3 +316,71 @@ package schema
 //@   ensures [cursor-moves-to-the-linked-node] result == builder && builder.ptr == node && builder.Process == old(builder.Process)
 //@   ensures [one-sequence-flow-added] len(builder.Process.SequenceFlowField) == old(len(builder.Process.SequenceFlowField)) + 1
 //@   ensures [the-flow-id-is-one-fresh-random-draw] ndirect(code("RandBytes")) == old(ndirect(code("RandBytes"))) + 1
+
+// ---------------------------------------------------------------------------------------------------------------
+// Generated accessors the event matching rules read (C11): an optional reference is present exactly when its field
+// is set, and the accessor hands back the field itself.
+//@ func (*SignalEventDefinition).SignalRef
+//@   prop C11
+//@   modifies nothing
+//@   flag emits none
+//@   ensures result == t.SignalRefField && (present <==> t.SignalRefField != nil)
+//@ func (*MessageEventDefinition).MessageRef
+//@   prop C11
+//@   modifies nothing
+//@   flag emits none
+//@   ensures result == t.MessageRefField && (present <==> t.MessageRefField != nil)
+//@ func (*MessageEventDefinition).OperationRef
+//@   prop C11
+//@   modifies nothing
+//@   flag emits none
+//@   ensures result == t.OperationRefField && (present <==> t.OperationRefField != nil)
+//@ func (*EscalationEventDefinition).EscalationRef
+//@   prop C11
+//@   modifies nothing
+//@   flag emits none
+//@   ensures result == t.EscalationRefField && (present <==> t.EscalationRefField != nil)
+//@ func (*ErrorEventDefinition).ErrorRef
+//@   prop C11
+//@   modifies nothing
+//@   flag emits none
+//@   ensures result == t.ErrorRefField && (present <==> t.ErrorRefField != nil)
+//@ func (*LinkEventDefinition).Target
+//@   prop C11
+//@   modifies nothing
+//@   flag emits none
+//@   ensures result == t.TargetField && (present <==> t.TargetField != nil)
+// (The accessor never returns nil: a caller's nil test is dead code, declared `defensive` there and proved dead.)
+//@ func (*LinkEventDefinition).Sources
+//@   prop C11
+//@   modifies nothing
+//@   flag emits none
+//@   ensures result != nil && *result == t.SourceField
+
+// ---------------------------------------------------------------------------------------------------------------
+// The definitions builder (C19): what Out() delivers is no longer the builder's — the builder starts over with
+// definitions of its own whose process, collaboration and diagram lists have no storage yet, so that nothing added
+// later can be written into a document that was already handed out.
+//@ func DefaultDefinitions
+//@   prop C19
+//@   modifies nothing
+//@   flag emits none
+//@   ensures [default-definitions-have-no-content] len(result.ProcessField) == 0 && cap(result.ProcessField) == 0 &&
+//@             len(result.CollaborationField) == 0 && cap(result.CollaborationField) == 0 && result.DiagramField == nil
+//@ func NewDefinitionsBuilder
+//@   prop C19
+//@   ensures [a-new-builder-owns-empty-definitions] result != nil && fresh(result) && result.Definitions != nil && fresh(result.Definitions) &&
+//@             len(result.Definitions.ProcessField) == 0 && cap(result.Definitions.ProcessField) == 0 &&
+//@             len(result.Definitions.CollaborationField) == 0 && cap(result.Definitions.CollaborationField) == 0 &&
+//@             result.Definitions.DiagramField == nil
+
+//@ func (*DefinitionBuilder).Out
+//@   prop C19
+//@   requires builder.Definitions != nil
+//@   ensures [the-document-is-a-copy-of-what-was-built] result != nil && fresh(result) && result.ProcessField == old(builder.Definitions.ProcessField) &&
+//@             result.CollaborationField == old(builder.Definitions.CollaborationField) && result.DiagramField == old(builder.Definitions.DiagramField) &&
+//@             result.IdField == old(builder.Definitions.IdField)
+//@   ensures [the-builder-starts-over-and-shares-no-storage-with-the-document] builder.Definitions != nil &&
+//@             len(builder.Definitions.ProcessField) == 0 && cap(builder.Definitions.ProcessField) == 0 &&
+//@             len(builder.Definitions.CollaborationField) == 0 && cap(builder.Definitions.CollaborationField) == 0 &&
+//@             builder.Definitions.DiagramField == nil
